@@ -126,6 +126,13 @@ def rand_value(rng, lo=0, hi=24):
 
 
 def rand_body(rng, n, binary=None):
+    if n > 2000:
+        # long bodies: runs with short random stretches in between (cheap to write as a Coq term)
+        out = bytearray()
+        while len(out) < n:
+            out += bytes([rng.randrange(256)]) * rng.choice([64, 100, 1000, 4000])
+            out += bytes(rng.getrandbits(8) for _ in range(rng.choice([0, 1, 5, 30])))
+        return bytes(out[:n])
     if binary is None:
         binary = rng.random() < 0.4
     if binary:
@@ -176,7 +183,7 @@ def gen_stream(rng, idx, body_sizes=None, force=None):
     if rng.random() < 0.3:   # repeated names
         n = rng.choice(["x-dup", "accept"])
         req += [(n, rand_value(rng, 1, 5)), (n, rand_value(rng, 1, 5))]
-    sizes = body_sizes or [0, 0, 1, 2, 3, 5, 17, 100, 1000, 4095, 4096, 4097, 16384, 20000, 70000]
+    sizes = body_sizes or [0, 0, 0, 1, 2, 3, 5, 17, 17, 100, 100, 1000, 1000, 4095, 4096, 4097, 16384, 20000]
     req_body = rand_body(rng, rng.choice(sizes)) if method not in ("GET", "DELETE", "OPTIONS") or rng.random() < 0.1 else b""
     resp_body = rand_body(rng, rng.choice(sizes))
     req_tr, resp_tr = None, None
@@ -716,3 +723,154 @@ def classify_h1(diffs, exp=None):
 
 def h1_residue_key(k, kind="HTTP1"):
     return "%s_%s_%s_%s_%d_%s" % (CLIENT[0], SERVER[0], CLIENT[1], SERVER[1], k, kind)
+
+
+# ==================================================================================== Coq terms
+def cq_bytes(b):
+    return "(bs [" + ";".join(str(x) for x in bytes(b)) + "])"
+
+
+def cq_list(xs):
+    return "[" + "; ".join(xs) + "]"
+
+
+def cq_bool(b):
+    return "true" if b else "false"
+
+
+def cq_pieces(body):
+    out = []
+    for p in pieces_of(bytes(body)):
+        if p[0] == "lit":
+            for k in range(0, len(p[1]), 1500):     # short literals: coqc recurses on the length of a list literal
+                out.append("PLit " + cq_bytes(p[1][k:k + 1500]))
+        else:
+            out.append("PRep %d %d" % (p[1], p[2]))
+    return cq_list(out)
+
+
+def cq_pk(x):
+    return "PkErr" if x is None else "(PkBytes %s)" % cq_bytes(unb64(x))
+
+
+ERRCLS = {"eof": "EEOF", "ueof": "EUnexpectedEOF", "other": "EProto"}
+
+
+def hdr_tag(hdr_pairs):
+    for n, v in hdr_pairs:
+        if n in ("X-Rq", "X-Rs"):
+            try:
+                return int(v)
+            except ValueError:
+                return 0
+    return 0
+
+
+def cq_event(ev):
+    t = ev["t"]
+    if t == "E":
+        return "EvErr %s %s" % (ERRCLS[ev["e"]], cq_bool(ev["more"]))
+    if t == "F":
+        if ev["k"] == "H":
+            fs = cq_list(["(%s, %s)" % (cq_bytes(unb64(n)), cq_bytes(unb64(v))) for n, v in ev["f"]])
+            f = "FHeaders %d %s %s" % (ev["sid"], fs, cq_bool(ev["es"]))
+        elif ev["k"] == "D":
+            f = "FData %d (unp %s) %s" % (ev["sid"], cq_pieces(unb64(ev["d"])), cq_bool(ev["es"]))
+        else:
+            f = "FOther %d" % ev["sid"]
+        return "EvFrame (%s) %s" % (f, cq_bool(ev["more"]))
+    hdr = [(unb64(k), [unb64(v) for v in vs]) for k, vs in ev["hdr"]]
+    tag = hdr_tag([(k.decode("latin-1"), vs[0].decode("latin-1")) for k, vs in hdr if vs])
+    h = cq_list(["(%s, %s)" % (cq_bytes(k), cq_list([cq_bytes(v) for v in vs])) for k, vs in hdr])
+    method = cq_bytes(unb64(ev["method"])) if "method" in ev else "[]"
+    p = "mkPayload false %d %s (%d)%%Z %s []" % (tag, method, ev.get("status", 0), h)
+    berr = "None" if not ev["berr"] else "(Some %s)" % ERRCLS[ev["berr"]]
+    return "EvMsg (%s) %d %s %s %s" % (p, ev["minor"], berr, cq_bool(ev["more"]), cq_pk(ev["next"]))
+
+
+VARIANT = {("1.0", "HTTP"): 0, ("1.1", "HTTP"): 1, ("2.0", "HTTP/2"): 2, ("2.0", "gRPC"): 3}
+
+
+def cq_pobs(side, is_req, textlimit=2048):
+    h2 = side["ver"] == "HTTP/2.0"
+    hs = side["headers"]
+    tag = hdr_tag(hs)
+    body, text = b"", None
+    rep = side.get("text")
+    if rep is not None and "b64" in rep:
+        t = unb64(rep["b64"])
+        if h2:
+            try:
+                body = base64.b64decode(t, validate=True)
+            except Exception:
+                body = b""
+            if len(t) <= textlimit:
+                text = t
+    hl = cq_list(["(%s, %s)" % (cq_bytes(n.encode("utf-8", "surrogateescape")), cq_bytes(v.encode("utf-8", "surrogateescape"))) for n, v in hs])
+    method = cq_bytes((side.get("method") or "").encode()) if is_req else "[]"
+    status = side.get("status") or 0
+    return "mkPobs %s %d %s (%d)%%Z %s %s %s" % (cq_bool(h2), tag, method, 0 if is_req else status, hl, cq_pieces(body),
+                                                 "None" if text is None else "(Some %s)" % cq_bytes(text))
+
+
+def cq_item(it):
+    var = VARIANT.get((it["proto"][1], it["proto"][2]), 9)
+    out = bool(it["ci"][4]) if it.get("ci") else False
+    return "mkIobs %d %s (%s) (%s)" % (var, cq_bool(out), cq_pobs(it["req"], True), cq_pobs(it["res"], False))
+
+
+def cq_residue(keys):
+    out = []
+    for k in keys or []:
+        parts = k.split("_")
+        out.append("(%d, %s)" % (int(parts[4]), cq_bool(parts[5] == "HTTP2")))
+    return cq_list(out)
+
+
+def cq_conn_case(case, r):
+    """conn_case term of one run (needs wantoracle); None if an item could not be projected."""
+    for it in r["items"]:
+        if it.get("req") is None or it.get("res") is None:
+            return None
+        for side in (it["req"], it["res"]):
+            rep = side.get("text")
+            if rep is not None and "b64" not in rep:
+                return None
+    cev = cq_list([cq_event(e) for e in r["oc"]["ev"]])
+    sev = cq_list([cq_event(e) for e in r["os"]["ev"]])
+    items = cq_list([cq_item(it) for it in r["items"]])
+    return "mkCase %s %s %s\n  %s\n  %s\n  %s\n  %s %s %s" % (
+        cq_bool(case.get("first") != "s"), cq_pk(r["oc"]["first"]), cq_pk(r["os"]["first"]), cev, sev, items,
+        cq_residue(r["residue"]), cq_bool(r["c"]["outcome"] == "panic"), cq_bool(r["s"]["outcome"] == "panic"))
+
+
+def run_conn_cases_in_coq(ctx, name, terms, budget=300000, timeout=900, workers=14):
+    """Evaluates chk_conn on the terms (files of about `budget` characters, in parallel); returns
+    the list of failing indices (None on coqc failure)."""
+    jobs, cur, cur_idx, size = [], [], [], 0
+    for i, t in enumerate(terms):
+        if cur and size + len(t) > budget:
+            jobs.append((cur_idx, cur))
+            cur, cur_idx, size = [], [], 0
+        cur.append(t)
+        cur_idx.append(i)
+        size += len(t)
+    if cur:
+        jobs.append((cur_idx, cur))
+
+    def one(j):
+        idxs, ts = j
+        src = ("Require Import V.Base.Prelude V.Http.HBytes V.Http.H2Asm V.Http.HttpLoop V.Http.H1Glue V.Http.HttpK.\n"
+               "Local Open Scope N_scope.\n"
+               "Definition cases : list conn_case := [\n" + ";\n".join(ts) + "].\n"
+               "Definition M := Eval vm_compute in failing chk_conn cases.\nPrint M.\n")
+        return ctx.coq_run("%s_%d" % (name, idxs[0]), src, timeout=timeout)
+    bad = []
+    with concurrent.futures.ThreadPoolExecutor(max_workers=workers) as ex:
+        for (idxs, ts), (rc, out) in zip(jobs, ex.map(one, jobs)):
+            idx = vlib.parse_coq_list_of_nat(out, "M")
+            if rc != 0 or idx is None:
+                ctx.log("coqc failed on %s_%d: %s" % (name, idxs[0], out[-800:]))
+                return None
+            bad += [idxs[i] for i in idx]
+    return bad
